@@ -6,32 +6,40 @@ CFG = {
     "drivers": ["C15", "C15Run"],
     "stateful": True,
     "trivial_prefix": ("-;",),
-    "technique": "Lean 4 proofs over an executable model of vxfw.go with arbitrary widget oracle; model tied to the source by "
-                 "(a) Gen/VxfwCases.lean (switch arms of App.Run and App.handleCommand, regenerated every run, compared by theorem) and "
-                 "(b) two correspondence streams: unexported handlers through verif_hooks_c15.go, and the real App.Run on a fake console",
+    "technique": "Lean 4 proofs over an executable model of vxfw.go with arbitrary widget oracle (and an arbitrary set of failing handler calls); "
+                 "model tied to the source by (a) Gen/VxfwCases.lean (switch arms of App.Run and App.handleCommand, statement skeletons of the ten "
+                 "handler functions, regenerated every run, compared by theorem) and (b) two correspondence streams: unexported handlers through "
+                 "verif_hooks_c15.go, and the real App.Run on a fake console",
     "rule": "C15: random widget sets (1..12 widgets, any subset capturing), random surface trees (depth <= 4, fan-out <= 3, overlapping "
-            "children, z-order, children sticking out of the parent, root surface sometimes owned by another widget), 5..40 ops per case over "
-            "focusHandler.handleEvent/updatePath/focusWidget, mouseHandler.handleEvent/update/mouseExit, hitTest, handleCommand and render's "
-            "child sort; handler answers scripted per call (nil, redraw, refresh, quit, consume, debug, title, focus, nested BatchCmd/[]Command). "
-            "C15Run: the real App.Run on a fake console, 5..25 posted events per case (key, custom, mouse, FocusIn, FocusOut, Resize, Redraw), "
-            "every frame observed. Non-trivial = an op during which at least one handler was called; distinct by the whole case prefix.",
-    "trusted_base": ["handlers returning a Go error (aborts Run) are outside the model",
-                     "BatchCmd/[]Command traversal modelled as pre-order flattening (Cmd.flatten); nesting handleCommand -> focusWidget -> handler "
+            "children, z-order, children sticking out of the parent, root surface sometimes owned by another widget; every widget drawn once — "
+            "the drivers reject other trees), 5..40 ops per case over focusHandler.handleEvent/updatePath/focusWidget, "
+            "mouseHandler.handleEvent/update/mouseExit/mouseEnter (terminal FocusIn), hitTest, handleCommand and render's child sort; handler "
+            "answers scripted per call (nil, redraw, refresh, quit, consume, debug, title, focus, nested BatchCmd/[]Command, and in a fifth of the "
+            "cases 'returns an error'). C15Run: the real App.Run on a fake console, 5..25 posted events per case (key, custom, mouse, FocusIn, "
+            "FocusOut, Resize, Redraw), every frame observed, error answers too. Non-trivial = an op during which at least one handler was "
+            "called; distinct by the whole case prefix.",
+    "trusted_base": ["BatchCmd/[]Command traversal modelled as pre-order flattening (Cmd.flatten); nesting handleCommand -> focusWidget -> handler "
                      "-> handleCommand bounded by fuel (stack depth)",
                      "sort.Slice on <= 12 children modelled as Go's stable insertion sort (validated by the `render` ops)",
-                     "SetMouseShape/SetTitle/CopyToClipboard/SendNotification are one abstract command `other k` (validated with SetTitle)"],
-    "level_text": "vxfw routing, focus and hover. Proved for every widget behaviour (oracle), state and nesting depth: key_routing (capture root->focused, "
-                  "target, bubble parent->root over the stored path, stop at the first consumed offer; general and explicit form), path_correct "
-                  "(after a frame the path is the drawn chain of the focused widget, or [root] after the best-effort refocus), mouse_routing, "
-                  "hit_chain (+ exact characterisation for overlapping siblings), focus_change_once (pairs FocusOut(old)/FocusIn(new); needs: no "
-                  "FocusOut handler answers with a focus command — else false, Witness F115b), hover_alternates over whole Run-loop histories "
-                  "(needs: no terminal FocusIn events — else false, Witness F43; trees draw each widget once), closed on FocusOut / pointer leaving, "
-                  "commands_once. Routing over the *drawn* chain between a focus command and the next frame is false (Witness F115a).",
-    "level_note": "Proved: 30 theorems incl. three negative ones from decide-checked witnesses. Validated by correspondence only: that the model equals "
-                  "vxfw.go (0 mismatches expected on ~43k quick / ~555k thorough op lines, both streams), Go's sort.Slice stability for <= 12 children, "
-                  "uint16 coordinate arithmetic (proved equal to integer arithmetic for sizes < 65536, hit_list_is_under). Modelled not verified: handler "
-                  "errors, stack overflow on unbounded refocus recursion (fuel), timing of the 8 ms frame timer (frames are explicit steps).",
-    "assumptions": ["widget handlers never return an error", "at most 12 children per surface (Go's sort.Slice is then a stable insertion sort)",
-                    "surface sizes fit uint16 (they are uint16 in Go)"],
+                     "SetMouseShape/SetTitle/CopyToClipboard/SendNotification are one abstract command `other k` (validated with SetTitle)",
+                     "errors returned by Draw (layout) are outside the model (Run returns them)"],
+    "level_text": "vxfw routing, focus and hover, after the repairs of F115a/F115b/F43 in /repo. Proved for every widget behaviour (oracle), state, "
+                  "history and nesting depth, without exclusions: key_routing (capture root->focused, target, bubble parent->root, stop at the first "
+                  "consumed offer) and key_routing_drawn (after ANY history of the Run loop the path is the drawn chain of the widget focused now — "
+                  "path_is_drawn_chain — so routing is over the drawn chain at all times), path_correct, mouse_routing, hit_chain (+ exact "
+                  "characterisation for overlapping siblings), focus_change_once (pairs FocusOut(old)/FocusIn(new) for every handler behaviour), "
+                  "hover_alternates over whole Run-loop histories including terminal FocusIn/FocusOut (precondition: a tree draws each widget once; "
+                  "hover_needs_distinct shows it is necessary), closed on FocusOut / pointer leaving, commands_once and commands_once_history (every "
+                  "command returned by any handler call of a history — all phases, notifications, Init, frames, nested batches — takes effect exactly "
+                  "once, given the nesting budget did not run out). Handlers that return an error (Props/C15Err): Run returns at the failing call "
+                  "(nothing after it, its command dropped), errors inside focusWidget are logged and the interpreter goes on.",
+    "level_note": "Proved: 53 theorems (Props/C15 27, C15Err 7, C15Gen 10, witnesses 9 showing the pre-fix code violating the statements). Validated by "
+                  "correspondence only: that the model (incl. the error plumbing) equals vxfw.go (0 mismatches expected on ~38k quick / ~500k thorough op "
+                  "lines, both streams), Go's sort.Slice stability for <= 12 children, uint16 coordinate arithmetic (proved equal to integer "
+                  "arithmetic for sizes < 65536, hit_list_is_under). Modelled not verified: stack overflow on unbounded refocus recursion (fuel), "
+                  "timing of the 8 ms frame timer (frames are explicit steps), Draw errors.",
+    "assumptions": ["at most 12 children per surface (Go's sort.Slice is then a stable insertion sort)",
+                    "surface sizes fit uint16 (they are uint16 in Go)",
+                    "hover statements: every drawn tree shows a widget at most once under any point (checked on every generated tree)"],
     "timeout": 900,
 }
